@@ -49,6 +49,12 @@ AcdCases ==
     \cup UNION {{ADCase(In("mc", FLAG_UP + FLAG_UV + FLAG_AT + FLAG_ED, BN(9), <<Acd(Pattern(102, 16), n, Pk77)>>, <<e>>), "acd+ext") :
                n \in Frontier(37 + 16 + 2 + 77 + Len(EncTy(T_Struct("McExt"), e, F))) \cup {0, 16, 64}} : e \in McExtSubsets}
 
+\* the two variable-length parts against each other: both short, both beyond their nominal sizes
+\* (255-byte id, 256-byte key), one of each -- wherever the total still fits and where it just does not
+GridCases ==
+    {ADCase(In("mc", FLAG_UP + FLAG_AT, BN(11), <<Acd(Pattern(102, 16), n, Pattern(108, k))>>, GNone), "acd-grid") :
+        n \in {0, 1, 16, 64, 254, 255, 256, 257, 300, 310}, k \in {0, 1, 77, 255, 256, 257, 300, 310}}
+
 ExtCases ==
     {ADCase(In("mc", FLAG_UP + FLAG_ED, BN(1), GNone, <<e>>), "mc-ext") : e \in McExtSubsets}
     \cup {ADCase(In("ga", FLAG_UP + FLAG_UV + FLAG_ED, BN(2), GNone, <<e>>), "ga-ext") : e \in GaExtSubsets}
@@ -63,7 +69,7 @@ CallerExtCases ==
         n \in CallerLens}
     \cup {ADCase(In("custom", FLAG_UP, BN(3), GNone, GNone), "caller-ext")}
 
-MC_Cases == FlagCases \cup AcdCases \cup ExtCases \cup CallerExtCases
+MC_Cases == FlagCases \cup AcdCases \cup GridCases \cup ExtCases \cup CallerExtCases
 
 (***************************************************************************)
 (* C07 on the model: the independent inverse recovers every input          *)
